@@ -551,6 +551,10 @@ pub fn scenario(ctx: &mut Ctx) -> ScResult {
     let quiet = net.faults_until + 61 * SEC;
     for c in clients.iter() {
         for t in c.sim.model.live() {
+            if t.sc {
+                // when a send-cancelled transaction completes is not bounded by any property
+                continue;
+            }
             // (from the later of its last transmission and the end of the faults: after a
             // reconfiguration in mid-schedule `sent_at + whole schedule` would be too small)
             let total: u64 = (t.intervals_ms.iter().sum::<u64>() + t.final_ms) * MS;
@@ -619,7 +623,7 @@ fn deliver_to_client(ctx: &mut Ctx, c: &mut Client, at: u64, bytes: Vec<u8>, fro
         Reply::Drop => {
             ctx.st.inc("out.dropped");
             if let Some(tid) = tid_of(&bytes) {
-                if c.sim.model.live_idx(tid).map_or(false, |i| !c.sim.model.txs[i].rc) {
+                if c.sim.model.live_idx(tid).map_or(false, |i| !c.sim.model.in_limbo(i)) {
                     let q = c.sim.call(ctx, Call::QueryTx { tid })?;
                     if !matches!(q, Reply::Tx(Some(_))) {
                         let pr = if ctx.cfg.prop == "C05" { "C05" } else { "C07" };
